@@ -760,120 +760,88 @@ func nextCallsUpdate(fs fieldStore, update *ssa.Function) bool {
 	return found
 }
 
-// c01Emptiness enumerates the paths of Update with the abstract state (text emptiness, flag).
+// c01Emptiness enumerates the paths of Update (with the helpers only it uses followed inline) carrying the abstract
+// state (text emptiness, flag).
 func c01Emptiness(c *Ctx, update *ssa.Function, recv *ssa.Parameter, str, empty *types.Var) {
 	r := c.R
 	un := FuncName(update)
-	// acyclic?
-	for _, b := range update.Blocks {
-		for _, s := range b.Succs {
-			if s.Dominates(b) {
-				r.Note("shape-unrecognised R01.4: Update contains a loop; emptiness not evaluated by path enumeration")
-				return
-			}
-		}
+	unit := updateUnitOf(c, update)
+	if unitHasLoop(unit) {
+		r.Note("shape-unrecognised R01.4: Update contains a loop; emptiness not evaluated by path enumeration")
+		return
 	}
-	type state struct{ str, flag byte } // str: E N U C ; flag: T F C U
 	type res struct {
-		st  state
+		st  string
 		ret *ssa.Return
 	}
 	var outs []res
-	npaths := 0
-	decided := map[ssa.Value]bool{}
-	var walk func(b *ssa.BasicBlock, prev *ssa.BasicBlock, st state)
-	walk = func(b *ssa.BasicBlock, prev *ssa.BasicBlock, st state) {
-		if npaths > 20000 {
-			return
+	w := &pathWalker{unit: unit}
+	w.onStore = func(fn *ssa.Function, x *ssa.Store, st string) string {
+		f, base := storeField(x.Addr)
+		if len(fn.Params) == 0 || base != ssa.Value(fn.Params[0]) {
+			return st
 		}
-		for _, in := range b.Instrs {
-			switch x := in.(type) {
-			case *ssa.Store:
-				f, base := storeField(x.Addr)
-				if base != ssa.Value(recv) {
-					continue
+		b := []byte(st)
+		if f == str {
+			if s0, ok := constString(x.Val); ok {
+				if s0 == "" {
+					b[0] = 'E'
+				} else {
+					b[0] = 'N'
 				}
-				if f == str {
-					if s, ok := constString(x.Val); ok {
-						if s == "" {
-							st.str = 'E'
-						} else {
-							st.str = 'N'
-						}
-					} else if fl, _ := loadedField(x.Val); fl == str {
-						st.str = 'C'
-					} else if f := staticCalleeOfValue(x.Val); f != nil && f.Name() == "String" && f.Signature.Recv() != nil && isNamed(f.Signature.Recv().Type(), modPath, "Cell") {
-						st.str = 'C'
-					} else {
-						st.str = 'U'
-					}
-				}
-				if f == empty {
-					if k, ok := constBool(x.Val); ok {
-						if k {
-							st.flag = 'T'
-						} else {
-							st.flag = 'F'
-						}
-					} else if fl, _ := loadedField(x.Val); fl == empty {
-						st.flag = 'C'
-					} else {
-						st.flag = 'U'
-					}
-				}
-			case *ssa.Return:
-				npaths++
-				outs = append(outs, res{st, x})
-				return
-			case *ssa.If:
-				if v, seen := decided[x.Cond]; seen {
-					// the same condition value was already tested on this path: only one side is feasible
-					if v {
-						walk(b.Succs[0], b, st)
-					} else {
-						walk(b.Succs[1], b, st)
-					}
-					return
-				}
-				if u, isU := x.Cond.(*ssa.UnOp); isU && u.Op == token.NOT {
-					if v, seen := decided[u.X]; seen {
-						if !v {
-							walk(b.Succs[0], b, st)
-						} else {
-							walk(b.Succs[1], b, st)
-						}
-						return
-					}
-				}
-				tst, tsf := st, st
-				if isEmptyTest, neg := strEmptyTest(x.Cond, recv, str); isEmptyTest {
-					if !neg {
-						tst.str, tsf.str = refine(st.str, true), refine(st.str, false)
-					} else {
-						tst.str, tsf.str = refine(st.str, false), refine(st.str, true)
-					}
-				}
-				decided[x.Cond] = true
-				walk(b.Succs[0], b, tst)
-				decided[x.Cond] = false
-				walk(b.Succs[1], b, tsf)
-				delete(decided, x.Cond)
-				return
+			} else if fl, _ := loadedField(x.Val); fl == str {
+				b[0] = 'C'
+			} else if f2 := staticCalleeOfValue(x.Val); f2 != nil && f2.Name() == "String" && f2.Signature.Recv() != nil && isNamed(f2.Signature.Recv().Type(), modPath, "Cell") {
+				b[0] = 'C'
+			} else {
+				b[0] = 'U'
 			}
 		}
-		for _, s := range b.Succs {
-			walk(s, b, st)
+		if f == empty {
+			if k, ok := constBool(x.Val); ok {
+				if k {
+					b[1] = 'T'
+				} else {
+					b[1] = 'F'
+				}
+			} else if fl, _ := loadedField(x.Val); fl == empty {
+				b[1] = 'C'
+			} else if isTest, neg := strEmptyTest(x.Val, paramOf(fn), str); isTest {
+				// c.empty = (c.str == ""): the flag is the test itself
+				if b[0] == 'E' {
+					b[1] = map[bool]byte{false: 'T', true: 'F'}[neg]
+				} else if b[0] == 'N' {
+					b[1] = map[bool]byte{false: 'F', true: 'T'}[neg]
+				} else {
+					b[1] = 'U'
+				}
+			} else {
+				b[1] = 'U'
+			}
 		}
+		return string(b)
 	}
-	walk(update.Blocks[0], nil, state{'U', 'U'})
-	bad := map[*ssa.Return]string{}
-	good := 0
-	for _, o := range outs {
-		ok := (o.st.str == 'E' && o.st.flag == 'T') || (o.st.str == 'N' && o.st.flag == 'F') || (o.st.str == 'C' && o.st.flag == 'C')
-		if ok {
-			good++
+	w.onIf = func(fn *ssa.Function, cond ssa.Value, st string) (string, string) {
+		isEmptyTest, neg := strEmptyTest(cond, paramOf(fn), str)
+		if !isEmptyTest {
+			return st, st
+		}
+		t, f := []byte(st), []byte(st)
+		if !neg {
+			t[0], f[0] = refine(st[0], true), refine(st[0], false)
 		} else {
-			bad[o.ret] = fmt.Sprintf("a path reaches this return with text=%c flag=%c (E empty, N non-empty, C copied from the nested cell, U unknown; T/F)", o.st.str, o.st.flag)
+			t[0], f[0] = refine(st[0], false), refine(st[0], true)
+		}
+		return string(t), string(f)
+	}
+	w.onReturn = func(ret *ssa.Return, st string) { outs = append(outs, res{st, ret}) }
+	w.run(update, "UU")
+	npaths := w.npaths
+	bad := map[*ssa.Return]string{}
+	for _, o := range outs {
+		ok := (o.st[0] == 'E' && o.st[1] == 'T') || (o.st[0] == 'N' && o.st[1] == 'F') || (o.st[0] == 'C' && o.st[1] == 'C')
+		if !ok {
+			bad[o.ret] = fmt.Sprintf("a path reaches this return with text=%c flag=%c (E empty, N non-empty, C copied from the nested cell, U unknown; T/F)", o.st[0], o.st[1])
 		}
 	}
 	for i, ret := range returnsOf(update) {
@@ -881,8 +849,15 @@ func c01Emptiness(c *Ctx, update *ssa.Function, recv *ssa.Parameter, str, empty 
 		r.Check("R01.4", un, fmt.Sprintf("return #%d: empty flag agrees with the text on all paths", i+1), ret.Pos(), !isBad, why)
 	}
 	r.Extra["R01.4_paths_enumerated"] = npaths
-	r.Floor("R01.4", "paths through Update", npaths, 9)
-	_ = good
+	r.Floor("R01.4", "paths through Update", npaths, 5)
+	_ = recv
+}
+
+func paramOf(fn *ssa.Function) *ssa.Parameter {
+	if len(fn.Params) == 0 {
+		return nil
+	}
+	return fn.Params[0]
 }
 
 func refine(s byte, empty bool) byte {
